@@ -245,11 +245,19 @@ impl CommitOracle {
 						// listed finding, matched on its exact mechanism: the refused add travelled in the same
 						// commitment batch as the sender's own fulfil of an inbound HTLC (the sender's limit already
 						// counted the fulfilled value, the receiver does not until the removal is acknowledged)
-						if action.contains("Remote HTLC add would put them under remote reserve value") {
+						// (with a zero reserve the same refusal reads "would overdraw remaining funds")
+						let which = if action.contains("Remote HTLC add would put them under remote reserve value") {
+							Some("protocol-error/remote-reserve/add-batched-with-own-uncommitted-fulfil")
+						} else if action.contains("Remote HTLC add would overdraw remaining funds") {
+							Some("protocol-error/overdraw/add-batched-with-own-uncommitted-fulfil")
+						} else {
+							None
+						};
+						if let Some(key) = which {
 							if let Some(chan) = sim.chans.iter().position(|c| (c.a == from && c.b == to) || (c.a == to && c.b == from)) {
 								let sender_side = Self::side_of(sim, chan, to);
 								if self.last_batch_fulfil_add.get(&(chan, sender_side)) == Some(&(true, true)) {
-									f = f.with_key("protocol-error/remote-reserve/add-batched-with-own-uncommitted-fulfil");
+									f = f.with_key(key);
 								}
 							}
 						}
